@@ -66,6 +66,13 @@ def run(res, replay=None):
                          ({'kind': 'kingman'}, {'kind': 'dirac', 'psi': 0.5, 'c': 1.0, 'scale_time': False})):
             cases.append({'spec': dict(base, model=mdl, designed='other_family_first'), 'unreachable': [],
                           'prelude': [dict(base, model=pre, n_items=[['a', 3], ['b', 1]])]})
+    if not replay:
+        # designed: two loci with a window [start_time, end_time] that does not start at 0 (a moment over such a window is a DIFFERENCE of
+        # accumulated moments: products of means must be formed from the windowed means)
+        for st, lf in ((0.75, False), (0.25, True)):
+            cases.append({'spec': {'n_items': [['a', 2], ['b', 1]], 'model': {'kind': 'kingman'}, 'loci': 2, 'recombination_rate': 1.0,
+                                   'pop_sizes': {'a': {'0.0': 1.0}, 'b': {'0.0': 2.0}}, 'migration_rates': {'a>b': {'0.0': 0.5}, 'b>a': {'0.0': 0.25}},
+                                   'start_time': st, 'end_time': 5.0, 'designed': 'two_loci_window'}, 'loci_first': lf})
     orc.run_oracle(res, 'marginals', cases, chunk=1)
     # correspondence of per-population means with the model
     items = []
